@@ -215,7 +215,7 @@ Section Inline.
     | WIdent t => if validating o && negb (validI t) then Some [] else Some [IC (CIdent t)]
     | WType t => if validating o && negb (validT t) then Some [] else Some [IC (CType t)]
     | WErr _ | WErrV _ => Some []
-    | WPretty a b => Some [IC (CWs (if pretty o then b else a))]
+    | WPretty k => Some [IC (CWs (if pretty o then pws_pretty k else pws_plain k))]
     | WSeq l =>
         (fix go (l : list (W V)) : option (list ichunk) :=
            match l with
@@ -308,7 +308,7 @@ Section Inline.
     forall s s' il, Inv V s -> Sim s il -> run o w s = Some s' ->
       exists il', inline o w = Some il' /\ Inv V s' /\ Sim s' (il ++ il').
   Proof.
-    induction w as [t|t|t|t|v|n|t|t|k|k|a b|l IH|] using W_ind'; intros s s' il HI HS H.
+    induction w as [t|t|t|t|v|n|t|t|k|k|pk|l IH|] using W_ind'; intros s s' il HI HS H.
     1-11: cbn [W.run] in H.
     - injection H as <-. eexists; split; [reflexivity|]. split;
         [apply Inv_emit_other; [discriminate|assumption]|apply Sim_emit_other; [discriminate|assumption]].
